@@ -16,6 +16,9 @@ def run(chk):
         hobl.c10_orphan_before_user(chk, ex)
         hobl.failstop(chk, ex, "orphan", "OrphanedChildException", f"C10.{kind}.orphan_stops_handler",
                       "an OrphanedChildException raised by create_checkpoint leaves the handler unchanged: no further update, no user function afterwards")
+    from . import executor_contracts
+    executor_contracts.on_task_complete(chk, "C10", want=("C10",))
+    executor_contracts.execute_structure(chk, "C10")
     for kind in ("wait", "invoke", "callback"):
         ex = explore(kind)
         handler_preamble(chk, ex, FUNCS[kind])
